@@ -1,0 +1,123 @@
+// Copyright The Prometheus Authors
+// Licensed under the Apache License, Version 2.0 (the "License");
+// you may not use this file except in compliance with the License.
+// You may obtain a copy of the License at
+//
+// http://www.apache.org/licenses/LICENSE-2.0
+//
+// Unless required by applicable law or agreed to in writing, software
+// distributed under the License is distributed on an "AS IS" BASIS,
+// WITHOUT WARRANTIES OR CONDITIONS OF ANY KIND, either express or implied.
+// See the License for the specific language governing permissions and
+// limitations under the License.
+
+//go:build verif
+
+package app
+
+import (
+	"net/http"
+	"sync"
+	"time"
+
+	"github.com/prometheus/alertmanager/config"
+	"github.com/prometheus/alertmanager/dispatch"
+	"github.com/prometheus/alertmanager/inhibit"
+	"github.com/prometheus/alertmanager/nflog"
+	"github.com/prometheus/alertmanager/notify"
+	"github.com/prometheus/alertmanager/provider/mem"
+	"github.com/prometheus/alertmanager/silence"
+)
+
+// VerifHooks lets an external verification harness observe and script an
+// instance. Hooks are looked up by Options.DataDir, which the harness keeps
+// unique per instance. Only compiled with the "verif" build tag.
+type VerifHooks struct {
+	// OnSetup is called once the long-lived singletons exist, before the
+	// initial configuration is applied.
+	OnSetup func(*VerifInstance)
+	// WrapIntegrations may replace the integrations built for a receiver.
+	WrapIntegrations func(rcv config.Receiver, integrations []notify.Integration) []notify.Integration
+	// WaitFunc, when set, replaces the cluster wait function.
+	WaitFunc func() time.Duration
+	// Peer, when set, replaces the peer handed to the notification pipeline.
+	Peer notify.Peer
+}
+
+// VerifInstance exposes the wiring of one App to the harness.
+type VerifInstance struct {
+	App      *App
+	Silences *silence.Silences
+	Silencer *silence.Silencer
+	Nflog    *nflog.Log
+	Alerts   *mem.Alerts
+
+	r *reloader
+}
+
+// Handler returns the HTTP handler chain of the instance.
+func (vi *VerifInstance) Handler() http.Handler { return vi.App.server.Handler }
+
+// Dispatcher returns the currently published dispatcher.
+func (vi *VerifInstance) Dispatcher() *dispatch.Dispatcher { return vi.r.dispatcher.Load() }
+
+// Inhibitor returns the currently published inhibitor.
+func (vi *VerifInstance) Inhibitor() *inhibit.Inhibitor { return vi.r.inhibitor.Load() }
+
+var (
+	verifByDir      sync.Map // data dir -> *VerifHooks
+	verifByReloader sync.Map // *reloader -> *VerifHooks
+)
+
+// VerifSetHooks registers hooks for the instance that will be created with the
+// given data directory. Passing nil removes them.
+func VerifSetHooks(dataDir string, h *VerifHooks) {
+	if h == nil {
+		verifByDir.Delete(dataDir)
+		return
+	}
+	verifByDir.Store(dataDir, h)
+}
+
+func verifHooks(dataDir string) *VerifHooks {
+	if h, ok := verifByDir.Load(dataDir); ok {
+		return h.(*VerifHooks)
+	}
+	return nil
+}
+
+func verifRegister(a *App, silences *silence.Silences, silencer *silence.Silencer, nl *nflog.Log, alerts *mem.Alerts, r *reloader) {
+	h := verifHooks(a.opts.DataDir)
+	if h == nil {
+		return
+	}
+	verifByReloader.Store(r, h)
+	a.onStop("verif hooks", func() error {
+		verifByReloader.Delete(r)
+		return nil
+	})
+	if h.OnSetup != nil {
+		h.OnSetup(&VerifInstance{App: a, Silences: silences, Silencer: silencer, Nflog: nl, Alerts: alerts, r: r})
+	}
+}
+
+func verifWaitFunc(opts Options, f func() time.Duration) func() time.Duration {
+	if h := verifHooks(opts.DataDir); h != nil && h.WaitFunc != nil {
+		return h.WaitFunc
+	}
+	return f
+}
+
+func verifPipelinePeer(r *reloader, p notify.Peer) notify.Peer {
+	if h, ok := verifByReloader.Load(r); ok && h.(*VerifHooks).Peer != nil {
+		return h.(*VerifHooks).Peer
+	}
+	return p
+}
+
+func verifWrapIntegrations(r *reloader, rcv config.Receiver, integrations []notify.Integration) []notify.Integration {
+	if h, ok := verifByReloader.Load(r); ok && h.(*VerifHooks).WrapIntegrations != nil {
+		return h.(*VerifHooks).WrapIntegrations(rcv, integrations)
+	}
+	return integrations
+}
